@@ -14,6 +14,7 @@ import (
 	"sync"
 	"sync/atomic"
 	"testing"
+	"time"
 
 	"github.com/pilosa/pilosa"
 	"github.com/pilosa/pilosa/test"
@@ -400,6 +401,32 @@ func (s *Sess) owners(shard uint64) ([]*pilosa.API, error) {
 		return nil, fmt.Errorf("no owner found for shard %d", shard)
 	}
 	return out, nil
+}
+
+// AwaitShards waits (clusters only) until every node knows that the given shards of the
+// index hold data. A node learns of a new shard through a broadcast that the writer stops
+// waiting for after 50 ms; a query sent to a node that has not heard of the shard yet leaves
+// the shard out. That propagation delay is not what C14 is about.
+func (s *Sess) AwaitShards(cols []uint64) {
+	if s.Nd.N == 1 {
+		return
+	}
+	deadline := time.Now().Add(10 * time.Second)
+	for _, cmd := range s.Nd.C {
+		for {
+			av := cmd.API.AvailableShardsByIndex(s.ctx)[s.Index]
+			ok := av != nil
+			for _, c := range cols {
+				if ok && !av.Contains(c/SW) {
+					ok = false
+				}
+			}
+			if ok || time.Now().After(deadline) {
+				break
+			}
+			time.Sleep(5 * time.Millisecond)
+		}
+	}
 }
 
 // CV is one (concrete column, concrete value) entry of a value import.
